@@ -21,7 +21,7 @@ LEVEL_TEXT = ("Real end-to-end runs over generated release/death histories (reco
 LEVEL_NOTE = "f4 encodings compared at 2e-6 relative, f8/i4 exactly. Trusts netCDF4 for reading back and the harness's snapshot hook (hook call count reported)."
 RULE = ("case = (dt, steps, period, numrec, layout, reference, release steps and sizes, IBM kill schedule, particle variables or not, lon/lat or not, encoding, moving water). "
         "Non-trivial: at least one death or a late release so that record sizes change; distinct by the whole parameter tuple.")
-MANDATORY = ["packed_output_variable", "forcing_derived_values_checked", "sparse", "dense", "empty_record", "highest_pids_dead_at_file_end", "all_dead_at_end", "late_first_release", "multifile", "explicit_reference",
+MANDATORY = ["stop_off_grid_steps_multiple_of_period_particle_variables", "packed_output_variable", "forcing_derived_values_checked", "sparse", "dense", "empty_record", "highest_pids_dead_at_file_end", "all_dead_at_end", "late_first_release", "multifile", "explicit_reference",
              "particle_variables", "lonlat_output", "f4_encoding", "records_compared", "dense_lonlat_with_deaths", "warm_started_run_checked"]
 ASSUMPTIONS = ["durations are multiples of the time step; residues of steps modulo the period are C07's subject but occur here too"]
 TIMEOUT = {"quick": 900, "thorough": 3000}
@@ -62,10 +62,14 @@ def gen_cases(tier: str, seed: int) -> list[dict[str, Any]]:
 
 
 def run_case(case: dict[str, Any], wd: Path) -> dict[str, Any]:
+    if case["idx"] % 5 == 2 and not case.get("warm"):
+        case = dict(case, extra_stop=case["dt"] // 3)  # the stop time is not on the time grid: the run takes floor(duration / dt) steps
     case = dict(case, packed_out=bool(case["idx"] % 4 == 2 and case["enc"] == "f8"), scalar=bool(case["idx"] % 4 == 1))
     out = outscn.run_and_check(case, wd)
     res, snaps, V, cnt = out["res"], out["snaps"], out["V"], out["cnt"]
     sit: dict[str, int] = {}
+    sit["stop_time_off_the_time_grid"] = int(bool(case.get("extra_stop")))
+    sit["stop_off_grid_steps_multiple_of_period_particle_variables"] = int(bool(case.get("extra_stop")) and case["nsteps"] % case["period"] == 0 and bool(case["pvars"]))
     sit["packed_output_variable"] = int(cnt.get("packed_values_compared", 0) > 0)
     if case["scalar"] and res.ok and not V:
         # "the values the model state had at that time": a forcing-derived variable in a record belongs to the record's own positions
